@@ -36,15 +36,19 @@ Section Seq.
   Variable ksz : key -> Z.
   Variable guard : bool.
   Hypothesis d_ge : 4 <= d.
+  (** minimum number of keys of an internal node: 1, or 0 for the code with the single-child guard *)
+  Variable mn : nat.
+  Hypothesis mn_le : mn <= 1.
+  Hypothesis mn_guard : mn = 1 \/ guard = true.
 
-  Theorem delete_refines t k : WF 1 t ->
+  Theorem delete_refines t k : WF mn t ->
     match delete d ksz guard t k with
     | Err e => e = PageOverflow
-    | Ok (t', b) => WF 1 t' /\ abs (root t') = mm_delete (abs (root t)) k /\ b = mm_mem (abs (root t)) k
+    | Ok (t', b) => WF mn t' /\ abs (root t') = mm_delete (abs (root t)) k /\ b = mm_mem (abs (root t)) k
     end.
   Proof.
     intros H. unfold delete.
-    pose proof (delete_gen_refines d ksz guard d_ge k _ t (delete_all_local k) H) as P.
+    pose proof (delete_gen_refines d ksz guard d_ge mn mn_le mn_guard k _ t (delete_all_local k) H) as P.
     destruct (delete_gen d ksz guard (leaf_delete_all k) t k) as [[t' b]|e]; [|exact P].
     destruct P as [P1 P2]. split; auto.
     destruct H as [_ H]. apply wf_seg in H. destruct H as (Hs & _).
@@ -54,14 +58,14 @@ Section Seq.
     - destruct P2 as [-> ->]. destruct Q as [-> ->]. auto.
   Qed.
 
-  Theorem delete_specific_refines t k r : WF 1 t ->
+  Theorem delete_specific_refines t k r : WF mn t ->
     match delete_specific d ksz guard t k r with
     | Err e => e = PageOverflow
-    | Ok (t', b) => WF 1 t' /\ (abs (root t'), b) = mm_delete_one (abs (root t)) k r
+    | Ok (t', b) => WF mn t' /\ (abs (root t'), b) = mm_delete_one (abs (root t)) k r
     end.
   Proof.
     intros H. unfold delete_specific.
-    pose proof (delete_gen_refines d ksz guard d_ge k _ t (delete_one_local k r) H) as P.
+    pose proof (delete_gen_refines d ksz guard d_ge mn mn_le mn_guard k _ t (delete_one_local k r) H) as P.
     destruct (delete_gen d ksz guard (leaf_delete_one k r) t k) as [[t' b]|e]; [|exact P].
     destruct P as [P1 P2]. split; auto. unfold mm_delete_one.
     destruct (leaf_delete_one k r (abs (root t))) as [m'|].
@@ -70,23 +74,23 @@ Section Seq.
   Qed.
 
   (** * one step of a history *)
-  Theorem step_refines t o : WF 1 t ->
+  Theorem step_refines t o : WF mn t ->
     match step d ksz guard t o with
     | Err e => e = PageOverflow
-    | Ok (t', a) => WF 1 t' /\ (abs (root t'), a) = mm_step (abs (root t)) o
+    | Ok (t', a) => WF mn t' /\ (abs (root t'), a) = mm_step (abs (root t)) o
     end.
   Proof.
     intros H. destruct o as [k r|k|k r|k|ks|s e is ie|]; cbn [step mm_step].
-    - pose proof (insert_refines d ksz d_ge 1 t k r (le_n 1) H) as P.
+    - pose proof (insert_refines d ksz d_ge mn t k r mn_le H) as P.
       destruct (insert d ksz t k r) as [t'|e]; cbn [bind]; [|exact P]. destruct P as [P1 ->]. auto.
     - pose proof (delete_refines t k H) as P.
       destruct (delete d ksz guard t k) as [[t' b]|e]; cbn [bind]; [|exact P]. destruct P as (P1 & -> & ->). auto.
     - pose proof (delete_specific_refines t k r H) as P.
       destruct (delete_specific d ksz guard t k r) as [[t' b]|e]; cbn [bind]; [|exact P]. destruct P as (P1 & P2).
       rewrite <- P2. auto.
-    - rewrite (lookup_spec 1 t k H). cbn. auto.
-    - rewrite (multi_lookup_spec 1 t ks H). cbn. auto.
-    - rewrite (range_scan_spec 1 t s e is ie H). cbn. auto.
+    - rewrite (lookup_spec mn t k H). cbn. auto.
+    - rewrite (multi_lookup_spec mn t ks H). cbn. auto.
+    - rewrite (range_scan_spec mn t s e is ie H). cbn. auto.
     - auto.
   Qed.
 
@@ -97,7 +101,7 @@ Section Seq.
   | ref_cons a i s : refines i s -> refines (a :: i) (a :: s)
   | ref_overflow b s : refines [AErr PageOverflow] (b :: s).
 
-  Theorem run_refines : forall ops t, WF 1 t -> refines (run d ksz guard t ops) (mm_run (abs (root t)) ops).
+  Theorem run_refines : forall ops t, WF mn t -> refines (run d ksz guard t ops) (mm_run (abs (root t)) ops).
   Proof.
     induction ops as [|o ops IH]; intros t H; cbn [run mm_run]; [constructor|].
     pose proof (step_refines t o H) as P.
@@ -106,10 +110,10 @@ Section Seq.
     - subst e. destruct (mm_step (abs (root t)) o). constructor.
   Qed.
 
-  Theorem run_state_refines : forall ops t, WF 1 t ->
+  Theorem run_state_refines : forall ops t, WF mn t ->
     match run_state d ksz guard t ops with
     | Err e => e = PageOverflow
-    | Ok t' => WF 1 t' /\ abs (root t') = mm_run_state (abs (root t)) ops
+    | Ok t' => WF mn t' /\ abs (root t') = mm_run_state (abs (root t)) ops
     end.
   Proof.
     induction ops as [|o ops IH]; intros t H; cbn [run_state mm_run_state]; [auto|].
@@ -118,12 +122,42 @@ Section Seq.
     destruct P as [P1 P2]. rewrite <- P2. cbn [fst]. apply IH. exact P1.
   Qed.
 
-  Lemma WF_empty m : WF m (mkTree (Leaf []) 1).
-  Proof. split; cbn; auto. split; auto. apply seg_nil. Qed.
+End Seq.
+
+Lemma WF_empty m : WF m (mkTree (Leaf []) 1).
+Proof. split; cbn; auto. split; auto. apply seg_nil. Qed.
+
+(** ** the code as it is ([guard] arbitrary): trees without single-child internal nodes *)
+Section Seq1.
+  Variable d : nat.
+  Variable ksz : key -> Z.
+  Variable guard : bool.
+  Hypothesis d_ge : 4 <= d.
+  Let H1 : 1 = 1 \/ guard = true := or_introl eq_refl.
+
+  Definition delete_refines_wf1 := delete_refines d ksz guard d_ge 1 (le_n 1) H1.
+  Definition delete_specific_refines_wf1 := delete_specific_refines d ksz guard d_ge 1 (le_n 1) H1.
+  Definition step_refines_wf1 := step_refines d ksz guard d_ge 1 (le_n 1) H1.
+  Definition run_refines_wf1 := run_refines d ksz guard d_ge 1 (le_n 1) H1.
+  Definition run_state_refines_wf1 := run_state_refines d ksz guard d_ge 1 (le_n 1) H1.
 
   Corollary run_from_empty ops : refines (run d ksz guard (mkTree (Leaf []) 1) ops) (mm_run [] ops).
-  Proof. exact (run_refines ops _ (WF_empty 1)). Qed.
-End Seq.
+  Proof. exact (run_refines_wf1 ops _ (WF_empty 1)). Qed.
+End Seq1.
+
+(** ** the code with fixes/C17-rebalance-single-child.patch ([guard = true]): single-child internal
+    nodes (as bulk_load builds them) are tolerated *)
+Section Seq0.
+  Variable d : nat.
+  Variable ksz : key -> Z.
+  Hypothesis d_ge : 4 <= d.
+  Let H0 : 0 = 1 \/ true = true := or_intror eq_refl.
+
+  Definition delete_refines_guarded := delete_refines d ksz true d_ge 0 (le_S _ _ (le_n 0)) H0.
+  Definition delete_specific_refines_guarded := delete_specific_refines d ksz true d_ge 0 (le_S _ _ (le_n 0)) H0.
+  Definition run_refines_guarded := run_refines d ksz true d_ge 0 (le_S _ _ (le_n 0)) H0.
+  Definition run_state_refines_guarded := run_state_refines d ksz true d_ge 0 (le_S _ _ (le_n 0)) H0.
+End Seq0.
 
 (** * The specification is an ordered multimap *)
 Definition sorted_mm (m : mm) : Prop := seg None None m.
